@@ -858,14 +858,19 @@ void* DOMDocumentImpl::allocate(XMLSize_t amount)
   //	beyond this one will be maintained at the same alignment.
   amount = XMLPlatformUtils::alignPointerForNewBlockAllocation(amount);
 
+  //	The size of the header we add to our raw blocks
+  XMLSize_t sizeOfHeader = XMLPlatformUtils::alignPointerForNewBlockAllocation(sizeof(void *));
+
   // If the request is for a largish block, hand it off to the system
   //   allocator.  The block still must be linked into a special list of
   //   allocated big blocks so that it will be deleted when the time comes.
-  if (amount > kMaxSubAllocationSize)
+  //   The same is done for a request that fits neither in the current block
+  //   nor in a fresh block of the current size (small sizes passed to
+  //   XMLPlatformUtils::Initialize or setMemoryAllocationBlockSize).
+  if (amount > kMaxSubAllocationSize ||
+      (amount > fFreeBytesRemaining &&
+       (fHeapAllocSize < sizeOfHeader || amount > fHeapAllocSize - sizeOfHeader)))
   {
-    //	The size of the header we add to our raw blocks
-    XMLSize_t sizeOfHeader = XMLPlatformUtils::alignPointerForNewBlockAllocation(sizeof(void *));
-
     //	Try to allocate the block
     void* newBlock = fMemoryManager->allocate(sizeOfHeader + amount);
 
@@ -892,9 +897,6 @@ void* DOMDocumentImpl::allocate(XMLSize_t amount)
   if (amount > fFreeBytesRemaining)
   {
     // Request doesn't fit in the current block.
-    // The size of the header we add to our raw blocks
-    XMLSize_t sizeOfHeader = XMLPlatformUtils::alignPointerForNewBlockAllocation(sizeof(void *));
-
     // Get a new block from the system allocator.
     void* newBlock;
     newBlock = fMemoryManager->allocate(fHeapAllocSize);
